@@ -208,9 +208,14 @@ def run(ctx, ck):
     # each load writer: one entry per pulse
     for q in ('mininec.Impedance_Load.as_basic_input', 'mininec.Distributed_Load.as_basic_input',
               'mininec.Laplace_Load.as_basic_input'):
-        g = m.func(q)
-        gp = [p_ for p_ in SymExec(ctx, g, bind_loops=True, no_expand=bq - {g.qual}, max_paths=5000).run()
-              if p_.end != 'raise']
+        # (defined in the class or inherited from a template in the base class; hooks resolved for the class)
+        cls_q = q.split('.')[1]
+        g = m.resolve_method(cls_q, q.split('.')[-1])
+        if g is None:
+            raise AnalysisError('anchor vanished: %s' % q)
+        sx_ = SymExec(ctx, g, bind_loops=True, no_expand=bq - {g.qual}, max_paths=5000)
+        sx_.self_cls = cls_q
+        gp = [p_ for p_ in sx_.run() if p_.end != 'raise']
         got = set()
         n_ent = 0
         for p_ in gp:
@@ -294,7 +299,9 @@ def run(ctx, ck):
               'mininec.Medium.as_basic_input', 'mininec.Geobj.as_basic_input',
               'mininec.Impedance_Load.as_basic_input', 'mininec.Laplace_Load.as_basic_input',
               'mininec.Distributed_Load.as_basic_input'):
-        f = m.func(q)
+        f = m.funcs.get(q) or m.resolve_method(q.split('.')[1], q.split('.')[-1])
+        if f is None:
+            raise AnalysisError('anchor vanished: %s' % q)
         for s in walk_no_nested(f.node):
             if isinstance(s, ast.Expr) and isinstance(s.value, ast.Call) and \
                isinstance(s.value.func, ast.Attribute) and s.value.func.attr == 'append' and \
